@@ -349,7 +349,7 @@ pub fn worker(w: &mut Worker) {
     for base in ["false", "no", "true", "yes"] {
         pool.extend(case_variants(base));
     }
-    for s in ["0", "1", "00", "0.0", "", " ", "off", "n", "null", "False ", " false", "é", "0 ", "-0", "nO\n"] {
+    for s in ["0", "1", "00", "0.0", "", " ", "off", "n", "null", "False ", " false", "é", "0 ", "-0", "nO\n", "(0)", "(false)", "(no)", "()", "(x", "x)", "f(x)", ":)", "(no", "yes)", "and)", "(or"] {
         pool.push(s.to_string());
     }
     let commands = rig.ctx.commands.get_all_command_names();
@@ -431,7 +431,7 @@ pub fn crash_sig(_case: &Value, kind: &str) -> String {
     kind.to_string()
 }
 
-pub const RULE: &str = "every token sequence up to the length bound over {T,F,and,or,(,)} that the grammar cond := disj ('and' disj)* ; disj := atom ('or' atom)* ; atom := value | '(' cond? ')' accepts, spelled with true/false, through each of not (run_instruction), if, elseif, while (scripts with marker commands); then the truthiness pool (all 2^n case variants of false/no/true/yes and 15 other values) in 6 statement frames; then all sentences up to the second bound with 5x5 truthy/falsy spellings. Oracle: recursive-descent reference evaluator. A case is (statement, consumer); non-trivial when the statement has an operator or group; states = distinct (consumer, value, length) classes; transitions = real evaluations";
+pub const RULE: &str = "every token sequence up to the length bound over {T,F,and,or,(,)} that the grammar cond := disj ('and' disj)* ; disj := atom ('or' atom)* ; atom := value | '(' cond? ')' accepts, spelled with true/false, through each of not (run_instruction), if, elseif, while (scripts with marker commands); then the truthiness pool (all 2^n case variants of false/no/true/yes and 27 other values, among them values that start or end with a parenthesis) in 6 statement frames; then all sentences up to the second bound with 5x5 truthy/falsy spellings. Oracle: recursive-descent reference evaluator. A case is (statement, consumer); non-trivial when the statement has an operator or group; states = distinct (consumer, value, length) classes; transitions = real evaluations";
 pub const ASSUMPTIONS: &[&str] = &["atoms that are names of registered commands are excluded (they are dispatched as commands)", "ill-formed statements are not constrained"];
 pub const EXHAUSTIVE: bool = true;
 pub const WALL_CAP_S: (u64, u64) = (50, 1500);
